@@ -37,8 +37,8 @@ FIELDS = [
 ]
 VALID_VALUES = {
     "name1": ["B", "x1", "a:b"], "seq1": ["ACGT", "*", "acgtn"], "i": ["5", "-3", "+7"], "id2": ["B", "*a", "x,y"],
-    "seq2": ["ACGT", "*", "!x"], "cigar1": ["3M", "*", "2M1I4D", "1=2X"], "orient": ["+", "-"], "pos1": ["0", "17"],
-    "aln2": ["*", "3M1D", "1,2,3", "7"], "optid2": ["e1", "*", "9"], "pos2": ["3", "5$", "1"], "optint": ["*", "0", "44", "-2"],
+    "seq2": ["ACGT", "*", "!x"], "cigar1": ["3M", "*", "2M1I4D", "1=2X", "@cigar1:1=2X", "@cigar1:5M"], "orient": ["+", "-"], "pos1": ["0", "17"],
+    "aln2": ["*", "3M1D", "1,2,3", "7", "@cigar2:3M1D2I", "@cigar1:4M", "@trace:1,2"], "optid2": ["e1", "*", "9"], "pos2": ["3", "5$", "1"], "optint": ["*", "0", "44", "-2"],
     "cigar1_list": ["*", "2M", "1M,*"], "A": ["y", "!"], "f": ["2.5", "1e-3", "-.5"], "Z": ["a b", "~"], "J": ["[2]", "{\"a\": [1]}"],
     "H": ["00", "ABCDEF"], "B": ["c,1,-2", "f,1.5", "I,4000000000"],
     "crt": ["Y", "Xy", "x1", "@"], "generic": ["abc", "a b", "*", "x:i:y z"], "comment": ["another", " x y", ""],
@@ -49,7 +49,7 @@ VALID_VALUES = {
 INVALID_VALUES = {
     "name1": ["*a", "a b", "a+,b", ""], "seq1": ["AC GT", "12", ""], "i": ["1.5", "x", "", "1_0"], "id2": ["a b", ""],
     "seq2": ["a b", ""], "cigar1": ["3", "M3", "3M,2M", ""], "orient": ["*", "++", ""], "pos1": ["-1", "1$", "x"],
-    "aln2": ["3X", "1,,2", "M", ""], "optid2": ["a b", ""], "pos2": ["$", "-1", "1$$", "a"], "optint": ["x", "1.5", ""],
+    "aln2": ["3X", "1,,2", "M", "", "@cigar1:3=", "@cigar1:2X1M", "@cigar1:1M2S"], "optid2": ["a b", ""], "pos2": ["$", "-1", "1$$", "a"], "optint": ["x", "1.5", ""],
     "cigar1_list": ["3", "2M,,1M", ""], "A": ["ab", "", " "], "f": ["inf", "x", "1e", ""], "Z": ["a\tb", "a\nb", ""],
     "J": ["{", "[1", "a\tb", ""], "H": ["1", "1a", "GG", ""], "B": ["c,128", "C,-1", "x,1", "c", "f,x", ""],
     "crt": ["a b", "S", "E", "", "a\tb"], "generic": ["a\tb", "a\nb"], "comment": ["a\nb"],
@@ -102,7 +102,7 @@ def cases(rng, tier, shard, nshards):
             valid = rng.random() < 0.5
             pool = VALID_VALUES[kind] if valid else INVALID_VALUES[kind]
             yield {"k": "assign", "field": i, "value": rng.choice(pool), "valid": valid, "vlevel": rng.randrange(4),
-                   "how": rng.choice(["set", "attr"])}
+                   "how": rng.choice(["set", "attr"]), "via_gfa": rng.random() < 0.4, "known_version": rng.random() < 0.5}
 
 
 def run_assign_seq(case, ctx):
@@ -283,8 +283,31 @@ def run_mono(case, ctx):
 def run_assign(case, ctx):
     text, version, field, kind = FIELDS[case["field"]]
     lvl, value, valid = case["vlevel"], case["value"], case["valid"]
-    line = gfapy.Line(text, vlevel=lvl, **({"version": version} if version else {}))
-    cell = "%s.%s=%r (level %d, %s)" % (text.split("\t")[0], field, value, lvl, case["how"])
+    connected = False
+    if kind in ("A", "i", "f", "Z", "J", "H", "B", "comment", "generic") and field != "VN" and \
+            case.get("via_gfa"):
+        # the line is a line of a Gfa built at that level (version known or not yet known): it is
+        # created by the Gfa from the text and must have the Gfa's validation level
+        ver = version or ("gfa2" if text.split("\t")[0] in "EFGOU" and len(text.split("\t")[0]) == 1 else None)
+        g = gfapy.Gfa(vlevel=lvl, **({"version": ver} if (ver and case.get("known_version")) else {}))
+        ra = call(ctx, "add_line(str)", g.add_line, text)
+        cand = [l for l in g.lines if not l.virtual and l.record_type == text.split("\t")[0][:1].replace("#", "#")] if ra.ok else []
+        if text.startswith("H"):
+            cand = [g.header] if ra.ok else []
+        if len(cand) == 1:
+            line = cand[0]
+            connected = True
+            ctx.count("assignments_on_lines_created_by_a_gfa")
+    if not connected:
+        line = gfapy.Line(text, vlevel=lvl, **({"version": version} if version else {}))
+    cell = "%s.%s=%r (level %d, %s%s)" % (text.split("\t")[0], field, value, lvl, case["how"], ", line created by a Gfa" if connected else "")
+
+    if isinstance(value, str) and value.startswith("@"):
+        # a value object instead of its text
+        what, txt = value[1:].split(":", 1)
+        value = {"cigar1": lambda: gfapy.Alignment(txt, version="gfa1"), "cigar2": lambda: gfapy.Alignment(txt, version="gfa2"),
+                 "trace": lambda: gfapy.Alignment(txt, version="gfa2")}[what]()
+        ctx.count("value_object_assignments")
 
     def assign():
         if case["how"] == "attr":
@@ -293,7 +316,7 @@ def run_assign(case, ctx):
             line.set(field, value)
     r = call(ctx, "assign", assign)
     ctx.count("assignments")
-    ctx.add("assign_cells", "%s/%s/%d" % (kind, "valid" if valid else "invalid", lvl))
+    ctx.add("assign_cells", "%s/%s/%d%s" % (kind, "valid" if valid else "invalid", lvl, "/object" if not isinstance(value, str) else ""))
     ctx.nontriv([case["field"], value, lvl, case["how"]])
     if valid:
         if not r.ok:
